@@ -279,7 +279,9 @@ class FormulaManager(object):
             raise PysmtTypeError("Base and exponent of POW must be both INT "
                                  "or both REAL")
 
-        if base.is_constant():
+        if base.is_constant() and \
+           not (base.is_zero() and cast(Union[int, fractions.Fraction], exponent.constant_value()) < 0):
+            # (A negative power of zero is a division by zero: not folded)
             # Use Fractions: a negative exponent on an int would yield a float
             val = Fraction(cast(Union[int, fractions.Fraction], base.constant_value())) ** cast(Union[int, fractions.Fraction], exponent.constant_value())
             return self.Real(val)
